@@ -429,6 +429,19 @@ SEED_PROGS = [
     {'ins': [['U', 'Saw', 'audio', [C('1')]], ['U', 'Saw', 'audio', [C('2')]], ['bin', 'add', V(0), V(1)], ['un', 'neg', V(2)],
              ['bin', 'sub', V(3), V(3)], ['out', 'audio', C('0'), [V(4)]]]},
     {'ins': [['U', 'Saw', 'audio', [C('1')]], ['un', 'neg', V(0)], ['bin', 'sub', V(1), V(1)], ['out', 'audio', C('0'), [V(2)]]]},
+    # a rewritten unit that is rewritten again (the replacement of one fusion is the auxiliary unit of the next):
+    # a + b + c + d (+ -> Sum3 -> Sum4), five terms, x * y - (-z) (sub -> + -> MulAdd), (a + b) + (-c) + d, with a
+    # second output unit AFTER and BEFORE the sum
+    {'ins': [['U', 'Saw', 'audio', [C('1')]], ['U', 'Saw', 'audio', [C('2')]], ['U', 'Saw', 'audio', [C('3')]], ['U', 'Saw', 'audio', [C('4')]],
+             ['bin', 'add', V(0), V(1)], ['bin', 'add', V(4), V(2)], ['bin', 'add', V(5), V(3)], ['out', 'audio', C('0'), [V(6)]]]},
+    {'ins': [['U', 'Saw', 'audio', [C('1')]], ['U', 'Saw', 'audio', [C('2')]], ['U', 'Saw', 'audio', [C('3')]], ['U', 'Saw', 'audio', [C('4')]],
+             ['U', 'Saw', 'audio', [C('5')]], ['out', 'audio', C('1'), [V(0)]], ['sum', [V(0), V(1), V(2), V(3), V(4)]],
+             ['out', 'audio', C('0'), [V(6)]], ['out', 'audio', C('2'), [V(4)]]]},
+    {'ins': [['U', 'Saw', 'audio', [C('1')]], ['U', 'Saw', 'audio', [C('2')]], ['U', 'Saw', 'audio', [C('3')]], ['bin', 'mul', V(0), V(1)],
+             ['un', 'neg', V(2)], ['bin', 'sub', V(3), V(4)], ['out', 'audio', C('0'), [V(5)]]]},
+    {'ins': [['U', 'Saw', 'audio', [C('1')]], ['U', 'Saw', 'audio', [C('2')]], ['U', 'Saw', 'audio', [C('3')]], ['U', 'Saw', 'audio', [C('4')]],
+             ['bin', 'add', V(0), V(1)], ['un', 'neg', V(2)], ['bin', 'add', V(4), V(5)], ['bin', 'add', V(6), V(3)],
+             ['out', 'audio', C('0'), [V(7)]], ['out', 'audio', C('1'), [V(0)]]]},
     # invalid: control signal into Out.ar
     {'ins': [['U', 'Saw', 'control', [C('1')]], ['out', 'audio', C('0'), [V(0)]]]},
     {'ins': [['U', 'Saw', 'control', [C('1')]], ['raise', 'exc']]},
